@@ -61,7 +61,7 @@ func genLargePair(r *RNG) (clip.Paths64, clip.Paths64) {
 }
 
 func emitC19(e *Emitter, idx string, s, c clip.Paths64, fr clip.FillRule, info GenInfo, pointwise bool) {
-	takeDiscards() // start from a clean event log
+	clearEvents()
 	s0, c0 := clonePaths(s), clonePaths(c)
 	var u, in, d, x, d2, sr, cr, uw, un, ue clip.Paths64
 	perr := safeCall(func() {
